@@ -18,7 +18,8 @@ from vt.util import cb, ci, pick, untraced
 
 LAST = None
 TPAT = [[], ['-t', 'a'], ['-t', '!a1'], ['-t', '0'], ['-t', 'b0', '-t', 'a1'], ['-t', '!0', '-t', '!u']]
-LPAT = [[], ['--layer', 'w.A'], ['--layer', '!w.A'], ['-u'], ['-f'], ['--layer', 'UnitTests', '--layer', 'w.B'], ['-u', '-f']]
+LPAT = [[], ['--layer', 'w.A'], ['--layer', '!w.A'], ['-u'], ['-f'], ['--layer', 'UnitTests', '--layer', 'w.B'], ['-u', '-f'],
+        ['-u', '--layer', 'w.A'], ['--layer', 'w.B', '-f']]      # -u keeps the unit-test layer whatever --layer says
 LVL = [[], ['--at-level', '2'], ['--all'], ['--only-level', '2'], ['--at-level', '3'], ['--only-level', '1'],
        ['--all', '--only-level', '2'], ['--only-level', '3', '--all'], ['--at-level', '0', '--only-level', '2']]
 SHUF = [[], ['--shuffle', '--shuffle-seed', '7'], ['--shuffle', '--shuffle-seed', '12345']]
@@ -60,6 +61,8 @@ def expected(t, l, lv):
         if nonunit and n[0] == 'u':
             continue
         lp = [x for x in l if x not in ('--layer', '-u', '-f')]
+        if unit:
+            lp = []
         if lp:
             lpos = [re.compile(x) for x in lp if not x.startswith('!')]
             lneg = [re.compile(x[1:]) for x in lp if x.startswith('!')]
